@@ -276,6 +276,10 @@ JudgePosWithdraw(s, h, e, p) ==
                                                                                        /\ (a # "fm" => BLe(s.bal[a][d], p.bal[a][d])))),
        C09_all_to_fee_collector_without_active_farms |-> G(good /\ emerg /\ clean /\ A = {},
                                                            BSub(p.bal[fc][pp.lp], s.bal[fc][pp.lp]) = penObs /\ out = pp.amt),
+       \* "the owners of currently active farms": when owners receive anything, no owner of an active farm is left out
+       C09_no_active_owner_left_out |-> G(good /\ emerg /\ clean,
+                                          LET gain(a) == BSub(p.bal[a][pp.lp], s.bal[a][pp.lp]) IN
+                                          (\E a \in A \ {fc} : gain(a) # Z) => (\A a \in A \ {fc} : gain(a) # Z)),
        C09_accounted           |-> G(good /\ emerg, BLe(out, pp.amt) /\ BLe(pp.amt, BAdd(out, BNat(Cardinality(A))))),
        M_penalty_split_exact   |-> G(good /\ emerg, p.bal = ApplyT(s.bal, T)),
        C10_effect_next_epoch   |-> G(good /\ pp.open, NextEpochEffect(s, p, pp.owner, pp.lp) /\ HistOthersUnchanged(s, p, pp.owner, pp.lp, h)),
